@@ -28,7 +28,7 @@ def dense(names):
 
 
 def old_group(rng, i, name):
-    g = HistGen(rng, n_pool=8, name=name, storage=rng.choice(["mem", "sqlite"]))
+    g = HistGen(rng, n_pool=9, name=name, storage=rng.choice(["mem", "sqlite"]))
     g.start()
     g.round(n_props=0, by_value_adds=4 + rng.below(2), by_value_removes=0, app=False, encrypt=False)
     # removals in the middle -> blank interior leaves
@@ -64,6 +64,17 @@ def reinit_script(rng, i, variant):
     for who, cid in ((c, "cz3"), (rng.choice(others), "cz4")):
         ops.append({"op": "commit", "who": who, "id": cid, "detached": True})
         meta["frozen"].append(len(ops) - 1)
+    # ... and for INCOMING commits: an outsider joins by external commit on a GroupInfo of the re-initialised epoch
+    # (the only commit of that epoch an honest API still produces); every member refuses it
+    xo = [n for n in g.pool if n not in members and n not in g.removed][-1]
+    ops.append({"op": "group_info", "who": rng.choice(members), "id": "giz", "ext_commit": True, "tree_ext": True})
+    ops.append({"op": "ext_commit", "who": xo, "gi": "giz", "id": "cx"})
+    meta["ext_built"] = len(ops) - 1
+    meta["frozen_in"] = []
+    for m in members:
+        ops.append({"op": "deliver", "to": m, "msg": "cx"})
+        meta["frozen_in"].append(len(ops) - 1)
+    ops.append({"op": "drop", "who": xo})
     # successor
     outsider = [n for n in g.pool if n not in members and n not in g.removed][0]
     included = list(others)
@@ -245,6 +256,12 @@ def main(run, args):
             r = byi.get(k, {})
             if r.get("ok") is not False or r.get("err") != "GroupUsedAfterReInit":
                 failing.append({"what": "the old group accepts a commit after the re-init was committed", "script": sc["name"], "op": sc["ops"][k], "result": r.get("err") or "ok"})
+        if "ext_built" in meta and byi.get(meta["ext_built"], {}).get("ok"):
+            for k in meta["frozen_in"]:
+                stats["frozen_checks"] += 1
+                r = byi.get(k, {})
+                if r.get("ok") is not False or r.get("err") != "GroupUsedAfterReInit":
+                    failing.append({"what": "a member of the re-initialised group accepts an incoming (external) commit for the closed epoch", "script": sc["name"], "op": sc["ops"][k], "result": r.get("err") or "ok"})
         cr = byi.get(meta["create"], {})
         stats["creations"] += 1
         created = bool(cr.get("ok"))
